@@ -346,10 +346,25 @@ def rule_c(chk: Check, eng: Engine) -> None:
                     "fewer iterations than the declared minimum are emitted when the node budget runs out", keyparts="break-below-min")
     # who passes override parameters
     callers = []
+    fuzz_params = [a.arg for a in fz.node.args.args][1:]  # type: ignore[attr-defined]  # without self
+
+    def override_args(c: ast.Call) -> list[tuple[str, ast.AST]]:
+        """(parameter name, argument) for every override_* parameter of Repetition.fuzz that the call sets, by keyword or by position."""
+        out = [(k.arg, k.value) for k in c.keywords if k.arg and k.arg.startswith("override_")]
+        if not any(isinstance(a, ast.Starred) for a in c.args):
+            out += [(nm, a) for nm, a in zip(fuzz_params, c.args) if nm.startswith("override_")]
+        return out
+
     for f in eng.ix.all_functions:
+        own_params = {a.arg for a in f.node.args.args + f.node.args.kwonlyargs}  # type: ignore[attr-defined]
+        stored = {t.id for n in walk_local(f.node) for t in ast.walk(n) if isinstance(t, ast.Name) and isinstance(t.ctx, ast.Store)}
         for c in walk_local(f.node):
-            if isinstance(c, ast.Call) and call_name(c) == "fuzz" and any(k.arg and k.arg.startswith("override_") for k in c.keywords):
-                callers.append((f, c))
+            if isinstance(c, ast.Call) and call_name(c) == "fuzz":
+                ov = override_args(c)
+                # handing on one's own, never reassigned, parameter of the same name dictates nothing: the decision is the outer caller's
+                ov = [(nm, a) for nm, a in ov if not (isinstance(a, ast.Name) and a.id == nm and nm in own_params and nm not in stored)]
+                if ov:
+                    callers.append((f, c))
     allowed = {"RepetitionBoundsSuggestion._insert_repetitions"}
     for f, c in callers:
         if f.qualname in allowed:
@@ -723,6 +738,7 @@ MUTANTS = [
     M("terminal-repeat-default-on", _N, "    \"terminal_should_repeat\": 0.0,", "    \"terminal_should_repeat\": 0.05,", "R01-b"),
     M("option-multiple-unguarded", _R, "        if should_return_multiple:\n            repetition = Repetition(", "        if should_return_multiple or max_nodes > 500:\n            repetition = Repetition(", "R01-b"),
     M("rep-count-from-cap", _R, "        rep_goal = random.randint(self.min, self.max)\n", "        rep_goal = random.randint(self.min, max(self.max, nodes.MAX_REPETITIONS))\n", "R01-c"),
+    M("plus-dictates-one-iteration-positionally", _R, "            return  # nop, don't add a node\n        else:\n            return super().fuzz(\n                parent,\n                grammar,\n                max_nodes,\n                in_message,\n                override_current_iteration,\n                override_starting_repetition,\n                override_iterations_to_perform,\n            )\n", "            return  # nop, don't add a node\n        else:\n            return super().fuzz(\n                parent,\n                grammar,\n                max_nodes,\n                in_message,\n                override_current_iteration,\n                override_starting_repetition,\n                override_iterations_to_perform or 1,\n            )\n", "R01-c"),
     M("rep-break-below-min", _R, "                if rep >= self.min and override_iterations_to_perform is None:\n                    break", "                if override_iterations_to_perform is None:\n                    break", "R01-c"),
     M("alternative-expands-two", _A, "        random.choice(in_range_nodes).fuzz(parent, grammar, max_nodes, in_message)\n", "        random.choice(in_range_nodes).fuzz(parent, grammar, max_nodes, in_message)\n        if max_nodes > 1000:\n            random.choice(in_range_nodes).fuzz(parent, grammar, max_nodes, in_message)\n", "R01-c"),
     M("concatenation-skips-on-budget", _C, "            if node.distance_to_completion >= max_nodes:\n                node.fuzz(parent, grammar, 0, in_message)", "            if node.distance_to_completion >= max_nodes:\n                if max_nodes < -50:\n                    continue\n                node.fuzz(parent, grammar, 0, in_message)", "R01-c"),
@@ -735,5 +751,6 @@ TWINS = [
     M("twin-guard-with-hoisted-lookup", "src/fandango/language/tree.py", "        if (\n            current_path in path_to_replacement\n            and self.symbol == path_to_replacement[current_path].symbol\n            and not self.read_only\n        ):\n            new_subtree = path_to_replacement[current_path].deepcopy(\n", "        replacement = path_to_replacement.get(current_path)\n        if (\n            replacement is not None\n            and replacement.symbol == self.symbol\n            and not self.read_only\n        ):\n            new_subtree = replacement.deepcopy(\n", None),
     M("twin-guard-reordered", _T, "            current_path in path_to_replacement\n            and self.symbol == path_to_replacement[current_path].symbol\n            and not self.read_only\n",
       "            current_path in path_to_replacement\n            and not self.read_only\n            and self.symbol == path_to_replacement[current_path].symbol\n", None),
+    M("twin-plus-forwards-overrides-by-keyword", _R, "            return  # nop, don't add a node\n        else:\n            return super().fuzz(\n                parent,\n                grammar,\n                max_nodes,\n                in_message,\n                override_current_iteration,\n                override_starting_repetition,\n                override_iterations_to_perform,\n            )\n", "            return  # nop, don't add a node\n        return super().fuzz(\n            parent,\n            grammar,\n            max_nodes=max_nodes,\n            in_message=in_message,\n            override_current_iteration=override_current_iteration,\n            override_starting_repetition=override_starting_repetition,\n            override_iterations_to_perform=override_iterations_to_perform,\n        )\n", None),
     M("twin-rep-goal-comment", _R, "        rep_goal = random.randint(self.min, self.max)\n", "        # draw the number of repetitions\n        rep_goal = random.randint(self.min, self.max)\n", None),
 ]
